@@ -47,7 +47,7 @@ def requests_for(r, group, n, dbg, storages=("o",), norm="valid", ops=None):
     out = []
     allops = UNARY_T + UNARY_G + BINARY_GG + BINARY_GT + BINARY_TT + ["act"]
     for op in (ops or allops):
-        if op == "rotation" and group in NO_ROTATION:
+        if op in ("rotation", "normalize") and group in NO_ROTATION:
             continue
         for _ in range(n):
             st = r.choice(storages)
@@ -55,6 +55,13 @@ def requests_for(r, group, n, dbg, storages=("o",), norm="valid", ops=None):
             if op == "generator":
                 i = r.randint(-3, gen.GROUPS[group]["dof"] + 3)
                 out.append((gen.req(dbg, st, group, op, 0, [], [i]), [op, "mask0", st, "idx:%d" % i]))
+                continue
+            if op == "element":
+                if not group.startswith("B:"):
+                    continue
+                a, tags = gen.element(r, group, norm="valid")
+                i = r.randrange(len(group[2:].split(",")))
+                out.append((gen.req(dbg, "o", group, op, 0, a, [i]), [op, "mask0", "o", "idx:%d" % i]))
                 continue
             if op == "innerWeights":
                 out.append((gen.req(dbg, st, group, op, 0, []), [op, "mask0", st]))
